@@ -17,8 +17,15 @@ TRun   == /\ Is("Run") /\ Adv /\ UNCHANGED <<prog, s0>>
              /\ Ev.steps = r.tr
              /\ Len(Ev.hs) = Len(r.hs)
              /\ \A i \in DOMAIN r.hs : Ev.hs[i].var = r.hs[i].var /\ Ev.hs[i].s = r.hs[i].s /\ Ev.hs[i].e = r.hs[i].e
+\* the same program VALUE run a second time, from state s0 + 1: an independent run of the same description
+TRun2  == /\ Is("Run2") /\ Adv /\ UNCHANGED <<prog, s0>>
+          /\ LET r == Run(prog, s0 + 1) IN
+             /\ Ev.ok = r.ok /\ Ev.v = r.v /\ Ev.err = r.e /\ Ev.s = r.s
+             /\ Ev.steps = r.tr
+             /\ Len(Ev.hs) = Len(r.hs)
+             /\ \A i \in DOMAIN r.hs : Ev.hs[i].var = r.hs[i].var /\ Ev.hs[i].s = r.hs[i].s /\ Ev.hs[i].e = r.hs[i].e
 TEnd   == Is("End") /\ Adv /\ UNCHANGED <<prog, s0>>
-TNext  == TReset \/ TRun \/ TEnd
+TNext  == TReset \/ TRun \/ TRun2 \/ TEnd
 TSpec  == TInit /\ [][TNext]_tvars
 HighWater == TLCSet(1, IF TLCGet(1) < l THEN l ELSE TLCGet(1))
 Accepted == /\ PrintT(<<"HIGHWATER", TLCGet(1), Len(Trace)>>)
